@@ -324,4 +324,86 @@ def hoistValidate (t : HoistTarget) : Except Refusal Unit :=
 def hoistApply (t : HoistTarget) : Stmt :=
   .seq t.s (.loop t.v t.lo t.hi t.st (seqs (t.pre ++ t.post)))
 
+/-! ## HoistLoopBoundExprTrans -/
+
+structure HoistBoundTarget where
+  l : LoopN
+  /-- fresh symbols `loop_start`, `loop_stop`, `loop_step` (only used for the bounds that are hoisted) -/
+  fLo : Nat
+  fHi : Nat
+  fSt : Nat
+  deriving Repr, Inhabited
+
+/-- bounds that stay in place: a `Literal` or a plain scalar `Reference` -/
+def isSimpleBound : Expr → Bool
+  | .lit _ => true
+  | .var _ => true
+  | _ => false
+
+/-- `bound.replace_with(Reference(symbol))` and the assignment `symbol = bound` -/
+def hoistOne (f : Nat) (e : Expr) : List Stmt × Expr :=
+  if isSimpleBound e then ([], e) else ([.assign f e], .var f)
+
+/-- validate only tests structural context (Routine ancestor, not directly in a Directive),
+which always holds for the targets of this model -/
+def hoistBoundValidate (_t : HoistBoundTarget) : Except Refusal Unit := .ok ()
+
+/-- every assignment is inserted at the loop's old position, so they end up in the order
+step, stop, start -/
+def hoistBoundApply (t : HoistBoundTarget) : Stmt :=
+  let lo := hoistOne t.fLo t.l.lo
+  let hi := hoistOne t.fHi t.l.hi
+  let st := hoistOne t.fSt t.l.st
+  seqs (st.1 ++ hi.1 ++ lo.1 ++ [.loop t.l.v lo.2 hi.2 st.2 t.l.body])
+
+/-! ## LoopTiling2DTrans = chunk(outer) ; chunk(inner) ; swap(element loop of outer, chunk loop of inner) -/
+
+structure TileTarget where
+  v : Nat
+  lo : Expr
+  hi : Expr
+  st : Expr
+  /-- children of the outer loop body -/
+  body : List Stmt
+  /-- `options["tilesize"]` (32 when absent) -/
+  tile : Int
+  outO : Nat
+  elO : Nat
+  outI : Nat
+  elI : Nat
+  deriving Repr, Inhabited
+
+def TileTarget.original (t : TileTarget) : Stmt := .loop t.v t.lo t.hi t.st (seqs t.body)
+
+def tileValidate (t : TileTarget) : Except Refusal Unit :=
+  if t.tile ≤ 0 then .error .badOption else
+  match swapValidate ⟨t.v, t.lo, t.hi, t.st, t.body⟩ with
+  | .error e => .error e
+  | .ok () =>
+    match chunkValidate ⟨⟨t.v, t.lo, t.hi, t.st, seqs t.body⟩, t.tile, false, t.outO, t.elO⟩ with
+    | .error e => .error e
+    | .ok () =>
+      match t.body with
+      | .loop vi loi hii sti bi :: _ => chunkValidate ⟨⟨vi, loi, hii, sti, bi⟩, t.tile, false, t.outI, t.elI⟩
+      | _ => .ok ()
+
+/-- the assignment of the inner end variable and the step of the chunk loop -/
+def chunkEl (out el : Nat) (hi : Expr) (s chunk : Int) : Stmt × Expr :=
+  if s > 0 then
+    (.assign el (.bin .min (.bin .add (.var out) (.bin .sub (.lit chunk) (.lit 1))) hi), .lit chunk)
+  else
+    (.assign el (.bin .max (.bin .sub (.var out) (.bin .add (.lit chunk) (.lit 1))) hi), .lit (-chunk))
+
+def tileApply (t : TileTarget) : Stmt :=
+  match t.st, t.body with
+  | .lit so, .loop vi loi hii (.lit si) bi :: _ =>
+    let o := chunkEl t.outO t.elO t.hi so t.tile
+    let i := chunkEl t.outI t.elI hii si t.tile
+    .loop t.outO t.lo t.hi o.2
+      (.seq o.1
+        (.loop t.outI loi hii i.2
+          (.loop t.v (.var t.outO) (.var t.elO) t.st
+            (.seq i.1 (.loop vi (.var t.outI) (.var t.elI) (.lit si) bi)))))
+  | _, _ => t.original
+
 end C05
